@@ -1,0 +1,24 @@
+"""Verification hooks (no-ops unless MEANINGFUL_DATA_VTLENGINE_VERIF=1).
+
+A harness may assign ``sink`` to a callable ``sink(kind, name, info)``; the engine then
+reports load / statement / fetch / write / drop / session events and accesses to
+process-wide state through it. The sink may raise to inject a fault at that point and may
+block to force a thread interleaving. With the guard off nothing here does anything.
+"""
+
+import os
+from typing import Any, Callable, Optional
+
+ENABLED = os.environ.get("MEANINGFUL_DATA_VTLENGINE_VERIF") == "1"
+
+sink: Optional[Callable[[str, Any, Any], None]] = None
+
+
+def event(kind: str, name: Any = None, info: Any = None) -> None:
+    if ENABLED and sink is not None:
+        sink(kind, name, info)
+
+
+def access(var: str, mode: str, value: Any = None) -> None:
+    if ENABLED and sink is not None:
+        sink("access", var, (mode, value))
